@@ -356,3 +356,23 @@ Theorem C02_recorded_point_in_surface_frame :
 Proof. exact recorded_point_in_surface_frame. Qed.
 Print Assumptions C02_recorded_point_in_surface_frame.
 
+
+Theorem C02_conic_distance_sound_sheet :
+  forall k N L M z x y Rc t : R,
+       Standard.k_std_distance XOps (Fin k) (Fin N) (Fin L) (Fin M) (Fin z)
+         (Fin x) (Fin y) (Fin Rc) = Fin t ->
+       quadric k Rc (x + t * L) (y + t * M) (z + t * N) = 0%R /\
+       ((k * (N * N) + L * L + M * M + N * N)%R <> 0%R ->
+        (0 <= t)%R /\ (0 <= (Rc - (1 + k) * (z + t * N)) * Rc)%R).
+Proof. exact conic_distance_sound_sheet. Qed.
+Print Assumptions C02_conic_distance_sound_sheet.
+
+Theorem C02_sheet_is_sag_sheet :
+  forall px py pz Rc k : R,
+       Rc <> 0%R ->
+       quadric k Rc px py pz = 0%R ->
+       (0 <= (Rc - (1 + k) * pz) * Rc)%R ->
+       (0 <= 1 - (1 + k) * (px * px + py * py) / (Rc * Rc))%R /\
+       (Rc - (1 + k) * pz)%R = (Rc * sqrt (1 - (1 + k) * (px * px + py * py) / (Rc * Rc)))%R.
+Proof. exact sheet_is_sag_sheet. Qed.
+Print Assumptions C02_sheet_is_sag_sheet.
